@@ -3,7 +3,7 @@ from __future__ import annotations
 
 import ast
 
-from .. import fx, q
+from .. import fx, pat, q
 from ..core import AnchorError, Ctx, FuncInfo, dotted, guard_facts, norm, walk_no_nested
 from ..typestate import CircuitProgram, apply, flatten, state_at_first_oracle
 from . import c07, c10, c16
@@ -134,9 +134,23 @@ def check_oraclize(ctx: Ctx, fi: FuncInfo):
         raise AnchorError(fi.short, "from_function call not found")
     dv = q.arg(cs[0], 2, "defs")
     ok = isinstance(dv, ast.List) and len(dv.elts) == 1
-    if ok:
+    if not ok:
+        ctx.undecided(fi.short, "the definitions handed to from_function are not a one-element list")
+    else:
         lf = norm(dv.elts[0])
-        ok = f"{{{lf}[0]}}(v)" in txt or ("to_logicfun()" in lf and "{qf.name}(v)" in txt)
-    ctx.check(ok, "FX-FLOW", fi, "the generated source calls the bound definition by its bound name", "", "the name used in the generated source is not the name under which the wrapped function is bound", cs[0])
+        al = pat.path_aliases(fi.node)
+        vals = fs[0].value.values
+        called = [pat.tx(v_.value, al) for i_, v_ in enumerate(vals) if isinstance(v_, ast.FormattedValue) and i_ + 1 < len(vals) and isinstance(vals[i_ + 1], ast.Constant) and str(vals[i_ + 1].value).startswith("(v)")]
+        # the first component of the bound definition: `lf[0]`, or the name it was rebuilt with (`lf = (n,) + lf[1:]`)
+        firsts = {f"{lf}[0]"}
+        for n_ in walk_no_nested(fi.node):
+            if isinstance(n_, ast.Assign) and norm(n_.targets[0]) == lf and isinstance(n_.value, ast.BinOp) and isinstance(n_.value.left, ast.Tuple) and len(n_.value.left.elts) == 1:
+                firsts.add(pat.tx(n_.value.left.elts[0], al))
+                firsts.add(norm(n_.value.left.elts[0]))
+        if len(called) != 1:
+            ctx.undecided(fi.short, f"the generated source applies {called} to the argument: not one call `<name>(v)`")
+        else:
+            good = called[0] in firsts or norm(ast.parse(called[0], mode="eval").body) in firsts or ("to_logicfun()" in lf and called[0] == "qf.name")
+            pat.frag_rule(ctx, "FX-FLOW", fi, "the generated source calls the bound definition by its bound name", good, [(called[0] in ("qf.name", "name"), f"the generated source calls `{called[0]}` while the wrapped function is bound as `{lf}[0]` (it is renamed on a clash with the oracle's own name)")], cs[0])
     ct = [n for n in walk_no_nested(fi.node) if isinstance(n, ast.Raise) and "ConstantOracle" in norm(n)]
     ctx.check(len(ct) == 1, "FX-FLOW", fi, "constant oracles are rejected", "", "", fi.node)
